@@ -191,7 +191,8 @@ def cases(tier):
     def add(dform, tform, nfrac=0, fsep=".", tzform=None, sep="T", exact=True):
         cents = [None]
         if dform and ("W" in dform or "DDD" in dform):
-            cents = ["19", "20"] if tier == "quick" else [str(c) for c in range(16, 100)]
+            # every century 16..99 for the date-only forms in the thorough tier; combined forms: 19YY and 20YY
+            cents = ["19", "20"] if (tier == "quick" or tform) else [str(c) for c in range(16, 100)]
         for cent in cents:
             nm = f"{dform or ''}{sep if dform and tform else ''}{tform or ''}" + (f"{fsep}{'f' * nfrac}" if nfrac else "") + (tzform or "") + ("" if exact else " (default options)") + (f" [{cent}YY]" if cent else "")
             out.append(dict(name=nm, fn=parse_shape, params=dict(dform=dform, tform=tform, nfrac=nfrac, fsep=fsep, tzform=tzform, sep=sep, exact=exact, century=cent),
@@ -220,7 +221,7 @@ def cases(tier):
                 add(None, tf if nf == 0 or tf == "hh:mm:ss" else "hh:mm:ss", nf)
         for df in DATE_FORMS[:8]:
             for tf in TIME_FORMS:
-                for nf, fs in ((0, "."), (1, ","), (3, "."), (6, "."), (9, ",")):
+                for nf, fs in ((0, "."), (3, ","), (9, ".")):
                     if nf and tf in ("hh", "hh:mm", "hhmm"):
                         continue
                     for tzf in TZ_FORMS:
